@@ -13,7 +13,7 @@ Lemma run_from_app s p q : run_from s (p ++ q) = run_from (run_from s p) q.
 Proof. unfold run_from. apply fold_left_app. Qed.
 
 Lemma log_step s x : log (do_step s x) = log s ++ step_events s x.
-Proof. destruct x as [c img|img res]; cbn; [destruct (inflight s img)|]; reflexivity. Qed.
+Proof. destruct x as [c img|img res|c]; cbn; [destruct (inflight s img)| |]; reflexivity. Qed.
 
 Lemma set_same {A} (m : N -> A) i v : set m i v i = v.
 Proof. unfold set. now rewrite N.eqb_refl. Qed.
@@ -124,7 +124,9 @@ Proof. constructor; cbn; try discriminate; try tauto; constructor. Qed.
 
 Lemma inv_step s x : Inv s -> Inv (do_step s x).
 Proof.
-  intros [Hlt Hinj Hfresh Hclt Hnd Hplt Hpnd]. destruct x as [c img|img res].
+  intros [Hlt Hinj Hfresh Hclt Hnd Hplt Hpnd]. destruct x as [c img|img res|c].
+  3: { (* Cancel: nothing changes *)
+       constructor; cbn; rewrite ?app_nil_r; eauto. }
   - (* Req *)
     cbn. destruct (inflight s img) as [e|] eqn:E.
     + (* join the entry *)
@@ -199,6 +201,9 @@ Lemma waiting_snoc_done img p i res :
   waiting img (rev (p ++ [Done i res])) = if i =? img then [] else waiting img (rev p).
 Proof. now rewrite rev_app_distr. Qed.
 
+Lemma waiting_snoc_cancel img p c : waiting img (rev (p ++ [Cancel c])) = waiting img (rev p).
+Proof. now rewrite rev_app_distr. Qed.
+
 Definition entry_matches (steps : list step) (s : state) (img : N) : Prop :=
   match inflight s img with
   | None => waiting img (rev steps) = []
@@ -210,7 +215,8 @@ Proof.
   induction steps as [|x p IH] using rev_ind; intros img; unfold entry_matches.
   - reflexivity.
   - rewrite run_snoc. specialize (IH img) as IHimg. unfold entry_matches in IHimg.
-    destruct x as [c i|i res].
+    destruct x as [c i|i res|c].
+    3: { rewrite waiting_snoc_cancel. cbn. rewrite app_nil_r. exact IHimg. }
     + rewrite waiting_snoc_req. cbn [do_step].
       destruct (inflight (run p) i) as [e|] eqn:E; cbn [inflight log step_events]; rewrite E.
       * rewrite app_nil_r. destruct (N.eqb_spec i img) as [->|Hne].
@@ -242,13 +248,13 @@ Qed.
 (** * Well-formed schedules *)
 
 Lemma wf_snoc p x :
-  wf (p ++ [x]) = match x with Done img _ => negb (is_nilb (waiting img (rev p))) && wf p | Req _ _ => wf p end.
+  wf (p ++ [x]) = match x with Done img _ => negb (is_nilb (waiting img (rev p))) && wf p | _ => wf p end.
 Proof. unfold wf. rewrite rev_app_distr. destruct x; reflexivity. Qed.
 
 Lemma wf_prefix p q : wf (p ++ q) = true -> wf p = true.
 Proof.
   induction q as [|x q IH] using rev_ind; [now rewrite app_nil_r|].
-  rewrite app_assoc, wf_snoc. destruct x; [assumption|]. rewrite andb_true_iff. tauto.
+  rewrite app_assoc, wf_snoc. destruct x; [assumption| |assumption]. rewrite andb_true_iff. tauto.
 Qed.
 
 (** * (a) at most one pull per image in flight *)
@@ -259,7 +265,8 @@ Lemma started_minus_done steps : wf steps = true -> forall img,
 Proof.
   induction steps as [|x p IH] using rev_ind; intros Hwf img; [reflexivity|].
   rewrite wf_snoc in Hwf. rewrite run_snoc, log_step, count_started_app, count_done_app.
-  destruct x as [c i|i res].
+  destruct x as [c i|i res|c].
+  3: { specialize (IH Hwf img). cbn. lia. }
   - specialize (IH Hwf img). cbn [do_step step_events].
     destruct (inflight (run p) i) as [e|] eqn:E; cbn [inflight]; rewrite ?E; cbn [count_done filter length count_started].
     + destruct (N.eqb_spec i img) as [->|Hne].
@@ -317,7 +324,8 @@ Proof.
   induction steps as [|x p IH] using rev_ind; [reflexivity|].
   rewrite run_snoc, log_step, count_req_app, count_resp_app.
   pose proof (inflight_waiting p) as Hm.
-  destruct x as [d i|i res].
+  destruct x as [d i|i res|d].
+  3: { rewrite waiting_snoc_cancel. cbn. lia. }
   - rewrite waiting_snoc_req. cbn [step_events].
     assert (Hz : count_resp c img (match inflight (run p) i with None => [PullStarted i (next (run p))] | Some _ => [] end) = 0%nat)
       by (destruct (inflight (run p) i); reflexivity).
@@ -362,7 +370,8 @@ Proof.
   - assert (Hq' : forall r, ~ In (Done img r) q) by (intros r H; apply (Hq r), in_or_app; now left).
     specialize (IH Hq'). replace (p ++ Req c img :: q ++ [x]) with ((p ++ Req c img :: q) ++ [x])
       by (rewrite <- app_assoc; reflexivity).
-    destruct x as [d i|i r].
+    destruct x as [d i|i r|d].
+    3: { now rewrite waiting_snoc_cancel. }
     + rewrite waiting_snoc_req. destruct (i =? img); [apply in_or_app; now left|assumption].
     + rewrite waiting_snoc_done. destruct (N.eqb_spec i img) as [->|Hne]; [|assumption].
       exfalso. apply (Hq r), in_or_app. right. now left.
@@ -396,6 +405,18 @@ Qed.
 Corollary no_spurious_response steps c img :
   (count_resp c img (log (run steps)) <= count_req c img steps)%nat.
 Proof. pose proof (request_accounting steps c img). lia. Qed.
+
+(** * Cancellation of a waiting caller's context changes nothing: the caller stays registered and
+      is answered by the next [Done] of its image like everybody else (all theorems of this file
+      quantify over schedules that may contain [Cancel] steps anywhere). *)
+Theorem cancel_step steps c :
+  log (run (steps ++ [Cancel c])) = log (run steps) /\
+  next (run (steps ++ [Cancel c])) = next (run steps) /\
+  forall img, inflight (run (steps ++ [Cancel c])) img = inflight (run steps) img /\
+              waiting img (rev (steps ++ [Cancel c])) = waiting img (rev steps).
+Proof.
+  rewrite run_snoc. cbn. rewrite app_nil_r. repeat split. apply waiting_snoc_cancel.
+Qed.
 
 (** * (c) private copies *)
 Theorem private_copies steps : NoDup (copies (log (run steps))).
